@@ -71,8 +71,8 @@ Section LruSpec.
     | OLen => (s, RNum (N.of_nat (length (s_items s))), [])
     | OWeight => (s, RNum (total (s_items s)), [])
     | OResize mw ms =>
-        if z_neg ms then (s, RDiverge, [])
-        else let '(s', n, lg) := s_retrim (s_items s) mw (z_to_N ms) in (s', RCount n, lg)
+        (* a bound below 0 cannot be met by fewer than 0 items: read as 0 *)
+        let '(s', n, lg) := s_retrim (s_items s) mw (z_to_N ms) in (s', RCount n, lg)
     | OPurge => (mkLru [] (s_mw s) (s_ms s), RUnit, rev (map i_kv (s_items s)))
     | OContainsOrAdd k v w =>
         match lookup k (s_items s) with
